@@ -359,6 +359,9 @@ func Run(r *corr.Run) {
 	}
 	s := &session{r: r, c: c, useModel: len(r.ModelCmd) > 0 && os.Getenv("ACL_NOMODEL") == "", prop: os.Getenv("VERIF_PROPERTY")}
 	s.runScripts()
+	if s.wants("C03") {
+		s.keepOracle(r.Pick(4000, 150000))
+	}
 	walks := r.Pick(3000, 60000)
 	for i := 0; i < walks && r.TimeLeft(); i++ {
 		if i%7 == 6 && os.Getenv("ACL_NV") != "" {
